@@ -63,6 +63,14 @@ func main() {
 	for i := 0; i < nShort; i++ {
 		run(g.History(2 + rng.Intn(4)))
 	}
+	// bounded-exhaustive: every history of depth 1..3 (quick: depth 1..2) over the 14-letter alphabet; depth 4 in thorough
+	maxDepth := 2
+	if r.Thorough() {
+		maxDepth = 4
+	}
+	for d := 1; d <= maxDepth; d++ {
+		tables.Exhaustive(g.U, d, false, func(ops []string) { run(ops); r.Stat("class.exhaustive", 1) })
+	}
 	for i := 0; i < nLong; i++ {
 		run(g.History(30 + rng.Intn(31)))
 	}
